@@ -14,20 +14,23 @@ EXTENDS CkptActions
 BCl(n, s) == Min(s, n - 1)
 BBig == 1000000000
 
-(* recomputation steps of the binomial optimum over 1..NM, as a recursive function *)
-ExTab(NM) ==
-  LET Ex[n \in 1..NM, s \in 0..NM] ==
-        IF n = 1 THEN 0
-        ELSE IF s = 0 THEN BBig
-        ELSE IF s = 1 THEN (n * (n - 1)) \div 2
-        ELSE LET c == {m + Ex[m, BCl(m, s)] + Ex[n - m, BCl(n - m, s - 1)] : m \in 1..(n - 1)} IN
-             CHOOSE x \in c : \A y \in c : x <= y
-  IN Ex
+(* recomputation steps of the binomial optimum for 1..NM steps: a table tab[n][s], s in 0..NM, *)
+(* built bottom-up row by row (each row only reads earlier rows)                              *)
+BRow(n, tab, NM) ==
+  [s \in 0..NM |->
+     IF n = 1 THEN 0
+     ELSE IF s = 0 THEN BBig
+     ELSE IF s = 1 THEN (n * (n - 1)) \div 2
+     ELSE LET c == {m + tab[m][BCl(m, s)] + tab[n - m][BCl(n - m, s - 1)] : m \in 1..(n - 1)} IN
+          CHOOSE x \in c : \A y \in c : x <= y]
+RECURSIVE BBuild(_, _)
+BBuild(tab, NM) == IF Len(tab) >= NM THEN tab ELSE BBuild(Append(tab, BRow(Len(tab) + 1, tab, NM)), NM)
+ExTab(NM) == BBuild(<<>>, NM)
 
 OptOf(Ex, len, u) ==
   IF u < 1 \/ len < 2 THEN {}
   ELSE LET uu == BCl(len, u) IN
-       {m \in 1..(len - 1) : Ex[len, uu] = m + Ex[m, BCl(m, uu)] + Ex[len - m, BCl(len - m, uu - 1)]}
+       {m \in 1..(len - 1) : Ex[len][uu] = m + Ex[m][BCl(m, uu)] + Ex[len - m][BCl(len - m, uu - 1)]}
 
 BStep(e, g) == [e |-> e, gs |-> g]
 GenBinInit == [pc |-> "F", n |-> 0, r |-> 0, stack |-> <<>>, exh |-> FALSE]
